@@ -175,6 +175,8 @@ pub fn install_panic_hook() {
         // normalise /repo/ prefix
         let file = file.strip_prefix("/repo/").map(|s| s.to_string()).unwrap_or(file);
         // panics inside the standard library: drop the toolchain hash
+        // generated sources (lalrpop output) live in a hashed build directory
+        let file = match file.find("/out/parse/") { Some(i) => format!("out{}", &file[i + 4..]), None => file };
         let file = if file.starts_with("/rustc/") { format!("rustc/{}", file.splitn(4, '/').nth(3).unwrap_or("")) } else { file };
         LAST_PANIC.with(|p| *p.borrow_mut() = Some(PanicInfo { file, line, message }));
     }));
